@@ -890,6 +890,7 @@ int32_t tls13WritePreSharedKey(ssl_t *ssl,
         psBool_t isHelloRetryRequest)
 {
     psDynBuf_t pskBuf, idBuf, binderBuf;
+    psBool_t haveClientBufs = PS_FALSE;
     unsigned char extensionType[2] = { 0x00, EXT_PRE_SHARED_KEY };
     unsigned char *extensionData;
     psSize_t extensionDataLen;
@@ -934,6 +935,7 @@ int32_t tls13WritePreSharedKey(ssl_t *ssl,
         psAssert(psk != NULL);
         psDynBufInit(ssl->hsPool, &idBuf, 128);
         psDynBufInit(ssl->hsPool, &binderBuf, 128);
+        haveClientBufs = PS_TRUE;
         while (psk != NULL)
         {
 	    /* Don't try to offer a PSK that is associated with a hash
@@ -1017,6 +1019,12 @@ int32_t tls13WritePreSharedKey(ssl_t *ssl,
     return PS_SUCCESS;
 
 out_internal_failure:
+    if (haveClientBufs)
+    {
+        psDynBufUninit(&idBuf);
+        psDynBufUninit(&binderBuf);
+    }
+    psDynBufUninit(&pskBuf);
     ssl->err = SSL_ALERT_INTERNAL_ERROR;
     return MATRIXSSL_ERROR;
 }
@@ -1221,6 +1229,8 @@ int32_t tls13WritePskKeyExchangeModes(ssl_t *ssl,
     return PS_SUCCESS;
 
 out_internal_failure:
+    psDynBufUninit(&modesBuf);
+    psDynBufUninit(&buf);
     ssl->err = SSL_ALERT_INTERNAL_ERROR;
     return MATRIXSSL_ERROR;
 }
